@@ -306,6 +306,14 @@ def run_check(prop, tier, seed):
             unbounded.append({"tool": "apalache-mc 0.58", "module": module, "invariant": inv, "outcome": "NoError",
                               "wall_s": round(secs, 1), "scope": "all integers 0..2^64-1 (SMT, unbounded)"})
             vlib.log("  unbounded  %s!%s proved by Apalache for all u64 values, %.1fs" % (module, inv, secs))
+        for module in plan.get("tlaps", []):
+            ok, nobl, secs, tail = vlib.run_tlaps(os.path.join(mcd, "tlaps_" + module), module)
+            if not ok:
+                raise vlib.ToolError("tlapm did not prove all obligations of %s (a failure here is a defect of the "
+                                     "specification):\n%s" % (module, tail))
+            unbounded.append({"tool": "tlapm 1.6.0-pre", "module": module, "obligations": nobl, "discharged": nobl,
+                              "wall_s": round(secs, 1), "scope": "all integers (deductive proof)"})
+            vlib.log("  proved     %s: %d obligations discharged by TLAPS, %.1fs" % (module, nobl, secs))
         return out
 
     def do_traces():
@@ -615,3 +623,5 @@ PLANS["C14"]["engines"].append({"engine": "file", "trace_module": "FileTrace",
                                 "cases": lambda tier, seed: filegen.file_echo_cases(tier, seed),
                                 "constants": {"Strict": "TRUE", "ReadSizeReal": "65536"},
                                 "nontrivial": lambda c: len(c.get("echo", [])) > 0})
+
+PLANS["C16"]["tlaps"] = ["AcceptEncodingProofs"]
